@@ -18,7 +18,7 @@ const (
 func setupResolvConf(dns string) error {
 	// Make sure we are not already activated.
 	backup := true
-	if _, err := os.Stat(resolvBackupFile); err != nil && !os.IsNotExist(err) {
+	if _, err := os.Lstat(resolvBackupFile); err != nil && !os.IsNotExist(err) {
 		return fmt.Errorf("%s: %v", resolvBackupFile, err)
 	} else if err == nil {
 		backup = false
